@@ -349,6 +349,7 @@ def extract_fn(item, opts, blocks, rewrites_log, as_stub=False):
     for rw in blocks.get('_rewrites', []):
         frm, to, which = rw
         occ = find_code_occurrences(text, toks, ci, bodyp, bodye, frm)
+        if not occ and which == 'all': continue      # `rewrite all` applies to every occurrence, including none
         if not occ:
             raise GenErr('%s: rewrite anchor %r not found' % (item.name, frm))
         sel = occ if which == 'all' else [occ[which - 1]] if which <= len(occ) else None
@@ -470,6 +471,22 @@ def extract_fn(item, opts, blocks, rewrites_log, as_stub=False):
                 # (depth counted from anchor start)
                 pp = next(i for i in range(len(ci)) if toks[ci[i]][2] >= s0)
                 depth = 0; pos = None
+                if tk(pp)[1] in ('if', 'for', 'while', 'loop', 'match', 'unsafe'):
+                    # block statement: ends at the closing brace of its block (following `else` chains), not at the next `;`
+                    q2 = pp
+                    while True:
+                        d2 = 0
+                        while q2 <= bodye and not (tk(q2)[1] == '{' and d2 == 0):
+                            if tk(q2)[1] in ('(', '['): d2 += 1
+                            elif tk(q2)[1] in (')', ']'): d2 -= 1
+                            q2 += 1
+                        cb2 = match_close(toks, ci, q2)
+                        if cb2 + 1 <= bodye and tk(cb2 + 1)[1] == 'else': q2 = cb2 + 2; continue
+                        break
+                    pos = tk(cb2)[3]
+                    if cb2 + 1 <= bodye and tk(cb2 + 1)[1] == ';': pos = tk(cb2 + 1)[3]
+                    edits.append((pos, pos, G(key, '\n' + gtxt.rstrip() + '\n')))
+                    continue
                 while pp <= bodye:
                     y = tk(pp)
                     if y[0] == 'punct':
@@ -788,8 +805,13 @@ def generate(unit_name):
                 y = toks[ci[pp]]
                 if y[0] == 'punct':
                     if y[1] in OPEN: depth += 1
-                    elif y[1] in CLOSE: depth -= 1
-                    elif y[1] == ';' and depth == 0: e0 = y[3]; break
+                    elif y[1] in CLOSE:
+                        depth -= 1
+                        # lastexpr=1: `last` starts the tail expression of its block; the fragment ends where that block closes
+                        if depth < 0 and opts.get('lastexpr') == '1': e0 = y[2]; break
+                        # lastblock=1: `last` starts a block statement (for/while/if); the fragment ends with its closing brace
+                        if depth == 0 and y[1] == '}' and opts.get('lastblock') == '1': e0 = y[3]; break
+                    elif y[1] == ';' and depth == 0 and opts.get('lastblock') != '1': e0 = y[3]; break
                 pp += 1
             if e0 is None or e0 <= s0: raise GenErr('%s: fragment end not found' % name)
             import types
@@ -798,7 +820,7 @@ def generate(unit_name):
             for kx, vx in blocks.items():
                 if kx.startswith('before ') or kx.startswith('after ') or kx.startswith('loop'): fblocks[kx] = vx
             wrapper = types.SimpleNamespace(text='fn verif_frag() {' + frag.text + '}', name=frag.name, line=frag.line, path=path, kind='fn', impl=item.impl)
-            o2 = dict(opts); o2.pop('first', None); o2.pop('last', None)
+            o2 = dict(opts); o2.pop('first', None); o2.pop('last', None); o2.pop('lastexpr', None); o2.pop('lastblock', None)
             body = extract_fn(wrapper, o2, fblocks, u.rewrites)
             # strip the synthetic wrapper again: keep what is between the first '{' and the last '}'
             inner = body[body.index('{') + 1: body.rindex('}')]
